@@ -885,6 +885,11 @@ class TunnelCommunity(Community):
             if request.from_circuit_id not in self.exit_sockets:
                 self.logger.info("Created for unknown exit socket %s", request.from_circuit_id)
                 return
+            if (request.to_circuit_id in self.circuits or request.to_circuit_id in self.relay_from_to
+                    or request.to_circuit_id in self.exit_sockets):
+                # The id we reserved for the next hop was taken in the meantime (it travels in a plaintext create).
+                self.logger.warning("Circuit id %d is already in use, not extending", request.to_circuit_id)
+                return
             session_keys = self.exit_sockets[request.from_circuit_id].hop.keys
             self.remove_exit_socket(request.from_circuit_id, remove_now=True)
 
